@@ -54,6 +54,7 @@ pub struct Stats {
     pub events_replaced_later: u32,
     pub events_kept_earlier: u32,
     pub events_merged: u32,
+    pub events_merged_diff: u32,
     pub custom_at_max: u32,
     pub rec_calls: u32,
     pub max_rec_depth: u32,
@@ -180,6 +181,7 @@ impl<'a> Rf<'a> {
                     } else {
                         if old.exp != new.exp {
                             // genuinely different expectations merged
+                            self.stats.events_merged_diff += 1;
                         }
                         old.exp.extend(new.exp);
                         if let (Some(of), Some(nf)) = (&mut old.found, new.found) {
